@@ -286,7 +286,6 @@ class Tokens:
     """String <-> token tables of one fixture (statement texts, names)."""
 
     def __init__(self, orig):
-        from loki import fgen
         f = orig.focus
         self.name = {f.name.lower(): 'n0'}
         for t, r in REALNAME.items():
@@ -408,7 +407,6 @@ def project(copy, other, parent, tok):
 
 def _project(copy, other, parent, tok):
     from loki import fgen, ProcedureType, DerivedType, BasicType
-    from loki.ir import FindNodes, CallStatement, Comment
     f = copy.focus
     bu = copy.bodyunit
     mine, theirs = _roots(copy), _roots(other)
@@ -534,7 +532,6 @@ def _project(copy, other, parent, tok):
 def project_parent(parent, orig, clone, tok, orig_name):
     """Image of the original's parent scope: which copy its entries / sibling calls refer to."""
     from loki import ProcedureType, BasicType
-    from loki.ir import FindNodes, CallStatement
     if parent is None:
         return {'reg': {'n0': 'none', 'n1': 'none', 'n2': 'none'}, 'sibcalls': [], 'pmembers': [], 'nkeys': 0}
     o = orig.focus
